@@ -271,11 +271,22 @@ func scenarioTiles(t *traceWriter, rng *rand.Rand) {
 	}
 	s.end()
 	_ = os.Stdout
-	// (c) one long-running feeder following a growing log: the same tile coordinates come back with larger widths
-	schedules := [][]int{{100, 255, 256, 257, 300}, {3, 200, 260, 513, 700}, {250, 251, 252, 600}}
+	// (c) one long-running feeder following a growing log: the same tile coordinates come back with larger widths;
+	// schedules 3.. run on a second, large log (> 2^16 leaves), where tiles of level 1 become complete and tile
+	// (level 0, index n) and tile (level 1, index n) are both requested within one process lifetime
+	schedules := [][]int{{100, 255, 256, 257, 300}, {3, 200, 260, 513, 700}, {250, 251, 252, 600},
+		{255, 300, 65536, 65537}, {100, 65536, 65700}, {65535, 65536, 65793}}
+	var bigSdb *stubSumDB
+	var bigTr *branch
+	smallSdb, smallTr := sdb, tr
 	for si, sched := range schedules {
+		sdb, tr = smallSdb, smallTr
 		if sched[len(sched)-1] > maxLeaves {
-			continue
+			if bigSdb == nil {
+				bigSdb = newStubSumDB(rng, 65800, key, origin)
+				bigTr = &branch{name: "sumdb-big", leaves: bigSdb.leafH, memoU: map[string][]byte{}, memoR: map[[2]uint64][]byte{}}
+			}
+			sdb, tr = bigSdb, bigTr
 		}
 		gw := &growWitness{logID: l.id, verif: key.verif, origin: origin}
 		sdb.mu.Lock()
